@@ -18,10 +18,20 @@ class RealObs(object):
     __slots__ = ('ops', 'raised', 'cells', 'touched')
 
 
-def real_observe(case, classes):
+def real_observe(case, classes, mpu=None):
+    """Run the real device on `case`.  `mpu=None`: a fresh instance (the usual reading of "every
+    machine state").  `mpu=<instance>`: a long-lived ("veteran") instance that has executed other
+    cases before; only the architectural state, the cycle bookkeeping and the memory object are
+    set, so anything else an earlier instruction left behind in the instance (a cache, a memo, a
+    stale flag) takes part -- the programming model knows no such state, so the result must be
+    the same."""
     W, AW = widths(case.dev)
     mem = RecMem(case.seed, W, case.ov)
-    mpu = classes[case.dev](memory=mem, pc=case.startpc)
+    if mpu is None:
+        mpu = classes[case.dev](memory=mem, pc=case.startpc)
+    else:
+        mpu.memory = mem
+        mpu.start_pc = case.startpc
     mem.log = []
     mem.cells = dict(case.ov)
     mpu.a, mpu.x, mpu.y, mpu.sp, mpu.p, mpu.pc = case.a, case.x, case.y, case.sp, case.p, case.pc
